@@ -147,3 +147,349 @@ Lemma kv_removed h m key now k :
 Proof. rewrite fold_left_app. reflexivity. Qed.
 
 End Hist.
+
+(* ================= the same with content removal, writes by address and streamed writes ================= *)
+Section Hist2.
+Variable hash : algo -> bytes -> bytes.
+Hypothesis HL : HashLen hash.
+
+Definition ad_eqb (x y : algo * bytes) : bool := algo_eqb (fst x) (fst y) && bytes_eqb (snd x) (snd y).
+Lemma ad_eqb_eq x y : ad_eqb x y = true <-> x = y.
+Proof.
+  destruct x as [a d], y as [a' d']. unfold ad_eqb. cbn [fst snd]. rewrite andb_true_iff, algo_eqb_eq, bytes_eqb_eq.
+  split; [intros [-> ->]; reflexivity|intros E; inversion E; auto].
+Qed.
+Definition memb (x : algo * bytes) (l : list (algo * bytes)) : bool := existsb (ad_eqb x) l.
+Lemma memb_cons x y l : memb x (y :: l) = ad_eqb x y || memb x l.
+Proof. reflexivity. Qed.
+Definition del (x : algo * bytes) (l : list (algo * bytes)) : list (algo * bytes) := filter (fun y => negb (ad_eqb x y)) l.
+Lemma memb_del_same x l : memb x (del x l) = false.
+Proof.
+  induction l as [|y l IH]; [reflexivity|]. cbn [del filter]. destruct (ad_eqb x y) eqn:E; cbn [negb]; [exact IH|].
+  fold (del x l). rewrite memb_cons, E, IH. reflexivity.
+Qed.
+Lemma memb_del_other x y l : x <> y -> memb y (del x l) = memb y l.
+Proof.
+  intros Hne. induction l as [|z l IH]; [reflexivity|]. cbn [del filter]. fold (del x l).
+  destruct (ad_eqb x z) eqn:E; cbn [negb].
+  - apply ad_eqb_eq in E. subst z. rewrite memb_cons, IH.
+    destruct (ad_eqb y x) eqn:E2; [apply ad_eqb_eq in E2; congruence|reflexivity].
+  - rewrite !memb_cons, IH. reflexivity.
+Qed.
+
+Inductive cop :=
+| CWrite (fl : flavour) (a : algo) (key data : bytes) (now : N)
+| CStream (fl : flavour) (key : bytes) (o : wopts) (cs : list bytes) (now : N)
+| CWriteHash (fl : flavour) (a : algo) (data : bytes)
+| CRemove (key : bytes) (now : N)
+| CRemoveHash (a : algo) (d : bytes).
+
+Definition c_run (f : fs) (o : cop) : fs :=
+  match o with
+  | CWrite fl a k d now => snd (run (write hash fl a k d now) f)
+  | CStream fl k o cs now => snd (run (stream_write hash fl (Some k) o cs now) f)
+  | CWriteHash fl a d => snd (run (write_hash hash fl a d) f)
+  | CRemove k now => snd (run (delete hash k now) f)
+  | CRemoveHash a d => snd (run (remove_hash (sri_of hash a d)) f)
+  end.
+
+(* the specification: the map, what is stored now, everything that was ever named *)
+Record cspec := mkC { c_map : kv; c_stored : list (algo * bytes); c_all : list (algo * bytes) }.
+Definition c_step (s : cspec) (o : cop) : cspec :=
+  match o with
+  | CWrite _ a key d _ =>
+      mkC (fun k => if bytes_eqb k key then Some (a, d) else c_map s k) ((a, d) :: c_stored s) ((a, d) :: c_all s)
+  | CStream _ key o cs _ =>
+      let ad := (algo_of o, List.concat cs) in
+      mkC (fun k => if bytes_eqb k key then Some ad else c_map s k) (ad :: c_stored s) (ad :: c_all s)
+  | CWriteHash _ a d => mkC (c_map s) ((a, d) :: c_stored s) ((a, d) :: c_all s)
+  | CRemove key _ => mkC (fun k => if bytes_eqb k key then None else c_map s k) (c_stored s) (c_all s)
+  | CRemoveHash a d => mkC (c_map s) (del (a, d) (c_stored s)) ((a, d) :: c_all s)
+  end.
+
+Definition c_ok (o : cop) : bool :=
+  match o with
+  | CWrite fl a key d now => opts_ok key (commit_opts (write_opts fl a d) (sri_of hash a d) (lenN d)) now
+  | CStream fl key o cs now =>
+      match o_sri o with None => true | Some _ => false end && size_ok o (lenN (List.concat cs)) &&
+      opts_ok key (commit_opts o (sri_of hash (algo_of o) (List.concat cs)) (lenN (List.concat cs))) now
+  | CWriteHash _ _ _ => true
+  | CRemove key now => opts_ok key wopts0 now
+  | CRemoveHash _ _ => true
+  end.
+
+(* what a read of key k must answer *)
+Definition c_read (s : cspec) (k : bytes) : res bytes :=
+  match c_map s k with
+  | Some (a, d) => if memb (a, d) (c_stored s) then Ok d else Err EIoErr
+  | None => Err ENotFound
+  end.
+
+Definition CInv (f : fs) (s : cspec) : Prop :=
+  CacheInv f /\
+  (forall k, match c_map s k with
+             | Some (a, d) => In (a, d) (c_all s) /\ exists e, abs_idx hash f k = Some e /\ m_sri e = sri_of hash a d
+             | None => abs_idx hash f k = None
+             end) /\
+  (forall a d, In (a, d) (c_all s) ->
+     lookup f (InCache (cpath hash a d)) = if memb (a, d) (c_stored s) then Some (File d) else None).
+
+(* two named (algorithm, data) pairs with one path are the same pair *)
+Lemma nocoll_pair W a d a' d' :
+  NoColl hash W -> In (a, d) W -> In (a', d') W -> cpath hash a d = cpath hash a' d' -> (a, d) = (a', d').
+Proof.
+  intros Hn H1 H2 E. pose proof (Hn _ _ _ _ H1 H2 E) as Ed. subst d'. f_equal.
+  destruct (algo_eqb a a') eqn:Ea; [apply algo_eqb_eq; exact Ea|]. exfalso.
+  apply (algos_disjoint hash a d a' d); [intros X; rewrite X, algo_eqb_refl in Ea; discriminate|exact E].
+Qed.
+
+(* ---------- frames: a write leaves every other content location as it was ---------- *)
+Lemma ksafe'_untouched l c : ksafe' l c -> ~ may_touch c l.
+Proof. destruct c; cbn [ksafe' may_touch]; auto. intros [H1 H2] [E|E]; congruence. Qed.
+
+Lemma untouched_final {A} l (p : prog A) f :
+  steps_ok (fun c _ => ksafe' l c) p f -> lookup (snd (run p f)) l = lookup f l.
+Proof.
+  intros Hs. destruct (untouched_crash (fun x => x = l) p f) as [_ H]; [|apply H; reflexivity].
+  revert f Hs. induction p as [a|c k IH]; intros f Hs; cbn [steps_ok] in *; [exact I|].
+  destruct Hs as [Hc Hk]. split; [intros x Hx ->; exact (ksafe'_untouched l c Hc Hx)|].
+  destruct (exec c f) as [r f1]. apply IH. exact Hk.
+Qed.
+
+Lemma kp_publish l w cp sri :
+  cfile hash l -> wtmp_is w -> InCache cp <> l -> (exists x a b c, cp = [content_dir; x; a; b; c]) ->
+  all_steps (ksafe' l) (publish w cp sri).
+Proof.
+  intros Hl [n Hn] Hne [x [a [b [c ->]]]].
+  assert (w_tmp w <> l) as Htl by (rewrite Hn; apply (cfile_not_tmp hash); exact Hl).
+  assert (forall (r : res integrity), all_steps (ksafe' l) (unlink_quiet (w_tmp w) r)) as Hunl.
+  { intros r. rewrite Hn. apply (k_unlink_quiet hash l Hl). }
+  unfold publish. cbn [all_steps]. split.
+  - cbn [ksafe' may_touch parent removelast]. intros Hin. apply in_map_iff in Hin as [q [E Hq]]. destruct Hl as [a0 [d0 ->]].
+    inversion E; subst q. apply prefixes_length in Hq. unfold cpath in Hq. cbn in Hq. lia.
+  - intros r0. destruct r0; try apply Hunl.
+    all: cbn [all_steps]; split; [cbn [ksafe']; split; [exact Htl|exact Hne]|].
+    all: intros r; destruct r; try exact I.
+    all: cbn [all_steps]; split; [cbn [ksafe' may_touch]; tauto|]; intros r2; destruct r2 as [| |[|]| | | |]; apply Hunl.
+Qed.
+
+Lemma kp_commit l w now :
+  cfile hash l -> wtmp_is w -> InCache (cpath hash (w_algo w) (w_data w)) <> l -> all_steps (ksafe' l) (commit hash w now).
+Proof.
+  intros Hl Hw Hne. unfold commit. apply all_steps_rbind.
+  - unfold close_writer. rewrite (content_path_computed hash _ _ HL).
+    apply all_steps_bind; [apply (k_trim hash l Hl); exact Hw|].
+    intros rt. destruct rt; try (destruct Hw as [n Hn]; rewrite Hn; apply (k_unlink_quiet hash l Hl)).
+    apply kp_publish; [exact Hl|exact Hw|exact Hne|unfold cpath; eauto 10].
+  - intros wsri.
+    destruct (match o_sri (w_opts w) with Some d => match sri_matches d wsri with Some _ => Some d | None => None end | None => Some wsri end); [|exact I].
+    destruct (match o_size (w_opts w) with Some s => negb (s =? w_written w) | None => false end); destruct (o_size (w_opts w));
+      try exact I; destruct (w_key w); try exact I; apply (k_insert hash l Hl).
+Qed.
+
+Lemma kp_write_chunks l f w cs :
+  cfile hash l -> WInv f w -> steps_ok (fun c _ => ksafe' l c) (write_chunks w cs) f.
+Proof.
+  intros Hl. revert f w. induction cs as [|c cs IH]; intros f w Hw; cbn [write_chunks]; [exact I|].
+  unfold rbind. apply steps_ok_bind. split.
+  - apply (all_steps_ok (ksafe' l)); [auto|]. apply (k_write_chunk hash l Hl). exact (WInv_wtmp_is f w Hw).
+  - destruct (write_chunk_ok hash f w c Hw) as [w1 [f1 [Hr [Hw1 _]]]]. rewrite Hr. cbn [fst snd]. apply IH. exact Hw1.
+Qed.
+
+Lemma stream_write_frame f fl key o cs now l :
+  CacheInv f -> cfile hash l -> InCache (cpath hash (algo_of o) (List.concat cs)) <> l ->
+  lookup (snd (run (stream_write hash fl key o cs now) f)) l = lookup f l.
+Proof.
+  intros Hinv Hl Hne. apply untouched_final.
+  unfold stream_write, rbind. apply steps_ok_bind. split.
+  - apply (all_steps_ok (ksafe' l)); [auto|apply (k_open_writer hash l Hl)].
+  - destruct (open_writer_inv hash f fl key o Hinv) as [w [f1 [Hr [Hw [Hi1 [Hd0 [_ [_ [Ha _]]]]]]]]]. rewrite Hr. cbn [fst snd].
+    apply steps_ok_bind. split; [apply kp_write_chunks; assumption|].
+    destruct (write_chunks_ok hash f1 w cs Hw) as [w2 [f2 [Hr2 [Hw2 [Hs2 [Hd2 _]]]]]]. rewrite Hr2. cbn [fst snd].
+    apply (all_steps_ok (ksafe' l)); [auto|]. apply kp_commit; [exact Hl|exact (WInv_wtmp_is f2 w2 Hw2)|].
+    destruct Hs2 as (_ & _ & Ha2 & _). rewrite Ha2, Ha, Hd2, Hd0. exact Hne.
+Qed.
+
+
+Lemma write_frame f fl a key data now l :
+  CacheInv f -> cfile hash l -> InCache (cpath hash a data) <> l ->
+  lookup (snd (run (write hash fl a key data now) f)) l = lookup f l.
+Proof.
+  intros Hinv Hl Hne. unfold write. rewrite (oneshot_stream hash _ _ _ _ _ _ Hinv).
+  apply stream_write_frame; [exact Hinv|exact Hl|]. rewrite concat_oneshot.
+  assert (algo_of (write_opts fl a data) = a) as -> by (destruct fl; reflexivity). exact Hne.
+Qed.
+Lemma write_hash_frame f fl a data l :
+  CacheInv f -> cfile hash l -> InCache (cpath hash a data) <> l ->
+  lookup (snd (run (write_hash hash fl a data) f)) l = lookup f l.
+Proof.
+  intros Hinv Hl Hne. unfold write_hash. rewrite (oneshot_stream hash _ _ _ _ _ _ Hinv).
+  apply stream_write_frame; [exact Hinv|exact Hl|]. rewrite concat_oneshot. exact Hne.
+Qed.
+
+(* the store part of the invariant after (a, d) was written *)
+Lemma store_after_write f f' St U a d :
+  NoColl hash ((a, d) :: U) ->
+  (forall a0 d0, In (a0, d0) U -> lookup f (InCache (cpath hash a0 d0)) = if memb (a0, d0) St then Some (File d0) else None) ->
+  lookup f' (InCache (cpath hash a d)) = Some (File d) ->
+  (forall l, cfile hash l -> InCache (cpath hash a d) <> l -> lookup f' l = lookup f l) ->
+  forall a0 d0, In (a0, d0) ((a, d) :: U) ->
+    lookup f' (InCache (cpath hash a0 d0)) = if memb (a0, d0) ((a, d) :: St) then Some (File d0) else None.
+Proof.
+  intros Hnc Hold Hnew Hfr a0 d0 Hin. rewrite memb_cons.
+  destruct (ad_eqb (a0, d0) (a, d)) eqn:E.
+  - apply ad_eqb_eq in E. inversion E; subst a0 d0. exact Hnew.
+  - cbn [orb]. destruct Hin as [Hin|Hin]; [inversion Hin; subst a0 d0; rewrite (proj2 (ad_eqb_eq (a, d) (a, d)) eq_refl) in E; discriminate|].
+    rewrite Hfr; [exact (Hold a0 d0 Hin)|eexists _, _; reflexivity|].
+    intros X. assert (cpath hash a d = cpath hash a0 d0) as X' by congruence.
+    pose proof (nocoll_pair _ a d a0 d0 Hnc (or_introl eq_refl) (or_intror Hin) X') as Y. inversion Y; subst a0 d0.
+    rewrite (proj2 (ad_eqb_eq (a, d) (a, d)) eq_refl) in E. discriminate.
+Qed.
+
+Lemma read_hash_gone f a d :
+  lookup f (InCache (cpath hash a d)) = None -> run (read_hash hash (sri_of hash a d)) f = (Err EIoErr, f).
+Proof.
+  intros H. unfold read_hash, with_cpath. rewrite (content_path_computed hash a d HL).
+  unfold rbind, read_file. cbn [bind run]. unfold exec, resolve. rewrite H. reflexivity.
+Qed.
+
+Lemma cinv_step f s o :
+  CInv f s -> c_ok o = true -> NoColl hash (c_all (c_step s o)) -> CInv (c_run f o) (c_step s o).
+Proof.
+  intros [Hinv [Hm Hst]] Hok Hnc. unfold CInv. destruct o as [fl a key data now|fl key o cs now|fl a data|key now|a d]; cbn [c_run c_step c_ok c_map c_stored c_all] in *.
+  - (* write *)
+    pose proof (opts_ok_wf_rec hash key _ now Hok) as Hwf.
+    destruct (write_roundtrip hash HL f fl a key data now Hinv Hwf) as [_ [Hinv' [_ [_ [Hfr [e [He [_ [Hsri _]]]]]]]]].
+    pose proof (write_stored hash HL f fl a key data now Hinv Hwf) as Hnew.
+    set (f' := snd (run (write hash fl a key data now) f)) in *.
+    assert (abs_idx hash f' key = Some e) as Hkey.
+    { pose proof (find_run hash f' key (proj1 Hinv')) as E. rewrite He in E. inversion E. reflexivity. }
+    split; [exact Hinv'|]. split.
+    + intros k. destruct (bytes_eqb k key) eqn:Ek.
+      * apply bytes_eqb_eq in Ek. subst k. split; [left; reflexivity|]. exists e. split; [exact Hkey|exact Hsri].
+      * apply bytes_eqb_neq in Ek. specialize (Hm k). rewrite (Hfr k Ek).
+        destruct (c_map s k) as [[a0 d0]|]; [|exact Hm]. destruct Hm as [Hin Hex]. split; [right; exact Hin|exact Hex].
+    + apply (store_after_write f f'); [exact Hnc|exact Hst|exact Hnew|].
+      intros l Hl Hne. apply write_frame; assumption.
+  - (* streamed keyed write *)
+    apply andb_true_iff in Hok as [Hok Hopts]. apply andb_true_iff in Hok as [Hns Hsz].
+    assert (o_sri o = None) as Hns' by (destruct (o_sri o); [discriminate|reflexivity]).
+    pose proof (opts_ok_wf_rec hash key _ now Hopts) as Hwf.
+    destruct (stream_write_keyed_roundtrip hash HL f fl key o cs now Hinv Hns' Hsz Hwf) as [_ [Hinv' [_ [_ [Hfr [e [He [_ [Hsri _]]]]]]]]].
+    pose proof (stream_write_keyed_stored hash HL f fl key o cs now Hinv Hns' Hsz Hwf) as Hnew.
+    set (f' := snd (run (stream_write hash fl (Some key) o cs now) f)) in *.
+    assert (abs_idx hash f' key = Some e) as Hkey.
+    { pose proof (find_run hash f' key (proj1 Hinv')) as E. rewrite He in E. inversion E. reflexivity. }
+    split; [exact Hinv'|]. split.
+    + intros k. destruct (bytes_eqb k key) eqn:Ek.
+      * apply bytes_eqb_eq in Ek. subst k. split; [left; reflexivity|]. exists e. split; [exact Hkey|exact Hsri].
+      * apply bytes_eqb_neq in Ek. specialize (Hm k). rewrite (Hfr k Ek).
+        destruct (c_map s k) as [[a0 d0]|]; [|exact Hm]. destruct Hm as [Hin Hex]. split; [right; exact Hin|exact Hex].
+    + apply (store_after_write f f'); [exact Hnc|exact Hst|exact Hnew|].
+      intros l Hl Hne. apply stream_write_frame; assumption.
+  - (* write by address *)
+    destruct (write_hash_roundtrip hash HL f fl a data Hinv) as [_ [Hinv' [_ Hfr]]].
+    pose proof (write_hash_stored hash HL f fl a data Hinv) as Hnew.
+    set (f' := snd (run (write_hash hash fl a data) f)) in *.
+    split; [exact Hinv'|]. split.
+    + intros k. specialize (Hm k). rewrite (Hfr k).
+      destruct (c_map s k) as [[a0 d0]|]; [|exact Hm]. destruct Hm as [Hin Hex]. split; [right; exact Hin|exact Hex].
+    + apply (store_after_write f f'); [exact Hnc|exact Hst|exact Hnew|].
+      intros l Hl Hne. apply write_hash_frame; assumption.
+  - (* tombstone removal *)
+    pose proof (opts_ok_wf_rec hash key _ now Hok) as Hwf.
+    destruct (remove_scope hash f key now (proj1 Hinv) Hwf) as [_ [Hi' [Habs [Hfr _]]]].
+    set (f' := snd (run (delete hash key now) f)) in *.
+    split; [|split].
+    + destruct Hinv as [Hi [Hcs Hts]]. split; [exact Hi'|]. split.
+      * intros p n Hl. rewrite Hfr in Hl by (intros q E; inversion E as [[H1 H2]]; vm_compute in H1; discriminate). exact (Hcs p n Hl).
+      * unfold TmpShape, dir_or_absent in *. rewrite Hfr by (intros q E; inversion E as [[H1 H2]]; vm_compute in H1; discriminate). exact Hts.
+    + intros k. rewrite Habs. destruct (bytes_eqb k key); [reflexivity|exact (Hm k)].
+    + intros a0 d0 Hin. rewrite Hfr by (intros q E; inversion E as [[H1 H2]]; vm_compute in H1; discriminate). exact (Hst a0 d0 Hin).
+  - (* removal of content by address *)
+    destruct (remove_hash_scope f (sri_of hash a d)) as [Hfr Hcp].
+    specialize (Hcp _ (content_path_computed hash a d HL)).
+    set (f' := snd (run (remove_hash (sri_of hash a d)) f)) in *.
+    assert (forall l, l <> InCache (cpath hash a d) -> lookup f' l = lookup f l) as Hfr'.
+    { intros l Hl. apply Hfr. intros cp E. rewrite (content_path_computed hash a d HL) in E. inversion E; subst cp. exact Hl. }
+    assert (lookup f' (InCache (cpath hash a d)) = None) as Hgone.
+    { destruct (lookup f (InCache (cpath hash a d))) as [[x| |t]|] eqn:E.
+      - exact (proj2 Hcp).
+      - exfalso. destruct Hinv as [_ [Hcs _]]. apply (proj2 (Hcs _ _ E)); reflexivity.
+      - exact (proj2 Hcp).
+      - destruct Hcp as [_ Hsame]. fold f' in Hsame. rewrite Hsame. exact E. }
+    split; [|split].
+    + destruct Hinv as [Hi [Hcs Hts]]. split; [|split].
+      * apply (IndexInv_frame f); [exact Hi|]. intros l Hl. apply Hfr'. intros X. subst l. eapply index_not_content; [exact Hl|eexists; reflexivity].
+      * intros p n Hl. destruct (loc_eq_dec (InCache (content_dir :: p)) (InCache (cpath hash a d))) as [E|N]; [rewrite E, Hgone in Hl; discriminate|].
+        rewrite Hfr' in Hl by exact N. exact (Hcs p n Hl).
+      * unfold TmpShape, dir_or_absent in *. rewrite Hfr' by discriminate. exact Hts.
+    + intros k. specialize (Hm k).
+      assert (abs_idx hash f' k = abs_idx hash f k) as ->.
+      { apply abs_idx_frame. intros l Hl. apply Hfr'. intros X. subst l. eapply index_not_content; [exact Hl|eexists; reflexivity]. }
+      destruct (c_map s k) as [[a0 d0]|]; [|exact Hm]. destruct Hm as [Hin Hex]. split; [right; exact Hin|exact Hex].
+    + intros a0 d0 Hin. destruct (ad_eqb (a, d) (a0, d0)) eqn:E.
+      * apply ad_eqb_eq in E. inversion E; subst a0 d0. rewrite memb_del_same. exact Hgone.
+      * assert ((a, d) <> (a0, d0)) as Hne by (intros X; rewrite X, (proj2 (ad_eqb_eq _ _) eq_refl) in E; discriminate).
+        rewrite (memb_del_other _ _ _ Hne). destruct Hin as [Hin|Hin]; [congruence|].
+        rewrite Hfr'; [exact (Hst a0 d0 Hin)|].
+        intros X. assert (cpath hash a d = cpath hash a0 d0) as X' by congruence.
+        exact (Hne (nocoll_pair _ a d a0 d0 Hnc (or_introl eq_refl) (or_intror Hin) X')).
+Qed.
+
+
+(* everything ever named only grows *)
+Lemma c_all_grows s o : exists pre, c_all (c_step s o) = pre ++ c_all s.
+Proof. destruct o; cbn [c_step c_all]; solve [exists []; reflexivity | eexists [_]; reflexivity]. Qed.
+Lemma c_all_fold h s : exists pre, c_all (fold_left c_step h s) = pre ++ c_all s.
+Proof.
+  revert s. induction h as [|o h IH]; intros s; cbn [fold_left]; [exists []; reflexivity|].
+  destruct (IH (c_step s o)) as [p1 E1]. destruct (c_all_grows s o) as [p2 E2]. exists (p1 ++ p2). rewrite E1, E2, app_assoc. reflexivity.
+Qed.
+Lemma NoColl_suffix W W' : NoColl hash (W ++ W') -> NoColl hash W'.
+Proof. intros H a d a' d' H1 H2. apply H; apply in_or_app; right; assumption. Qed.
+
+(* the refinement: after any history the tree refines the specification state *)
+Theorem chistory_refines (h : list cop) f0 s0 :
+  CInv f0 s0 -> forallb c_ok h = true -> NoColl hash (c_all (fold_left c_step h s0)) ->
+  CInv (fold_left c_run h f0) (fold_left c_step h s0).
+Proof.
+  revert f0 s0. induction h as [|o h IH]; intros f0 s0 H0 Hok Hnc; cbn [fold_left] in *; [exact H0|].
+  cbn [forallb] in Hok. apply andb_true_iff in Hok as [Hok1 Hok2].
+  apply IH; [|exact Hok2|exact Hnc]. apply cinv_step; [exact H0|exact Hok1|].
+  destruct (c_all_fold h (c_step s0 o)) as [pre E]. rewrite E in Hnc. exact (NoColl_suffix _ _ Hnc).
+Qed.
+
+(* what the invariant means for a caller: every read by key and by address *)
+Theorem cinv_reads f s :
+  CInv f s ->
+  (forall k, run (read hash k) f = (c_read s k, f)) /\
+  (forall a d, In (a, d) (c_all s) ->
+     run (read_hash hash (sri_of hash a d)) f = (if memb (a, d) (c_stored s) then Ok d else Err EIoErr, f)).
+Proof.
+  intros [Hinv [Hm Hst]].
+  assert (forall a d, In (a, d) (c_all s) ->
+     run (read_hash hash (sri_of hash a d)) f = (if memb (a, d) (c_stored s) then Ok d else Err EIoErr, f)) as Haddr.
+  { intros a d Hin. specialize (Hst a d Hin). destruct (memb (a, d) (c_stored s)).
+    - apply (read_hash_stored hash HL). exact Hst.
+    - apply read_hash_gone. exact Hst. }
+  split; [|exact Haddr].
+  intros k. unfold c_read. specialize (Hm k). destruct (c_map s k) as [[a d]|].
+  - destruct Hm as [Hin [e [He Hs]]]. rewrite (read_by_key hash f k e (proj1 Hinv) He), Hs. exact (Haddr a d Hin).
+  - unfold read, by_key, rbind. rewrite run_bind, (find_run hash f k (proj1 Hinv)), Hm. reflexivity.
+Qed.
+
+Definition cspec0 : cspec := mkC (fun _ => None) [] [].
+Lemma cinv_empty : CInv [] cspec0.
+Proof.
+  split; [split; [intros p n H; discriminate|split; [intros p n H; discriminate|left; reflexivity]]|].
+  split; [intros k; reflexivity|intros a d []].
+Qed.
+
+Corollary creads_from_empty (h : list cop) :
+  forallb c_ok h = true -> NoColl hash (c_all (fold_left c_step h cspec0)) ->
+  let f := fold_left c_run h [] in
+  forall k, run (read hash k) f = (c_read (fold_left c_step h cspec0) k, f).
+Proof. intros Hok Hnc f k. exact (proj1 (cinv_reads _ _ (chistory_refines h [] cspec0 cinv_empty Hok Hnc)) k). Qed.
+
+End Hist2.
